@@ -738,7 +738,9 @@ pub assume_specification<T: core::marker::Destruct, P: FnOnce(&T) -> bool + core
     requires a matches Some(v) ==> p.requires((&v,)),
     ensures
         a is None ==> r is None,
-        a matches Some(v) ==> (p.ensures((&v,), true) ==> r == a) && (p.ensures((&v,), false) ==> r is None) && (r is None || r == a);
+        a matches Some(v) ==> (p.ensures((&v,), true) ==> r == a) && (p.ensures((&v,), false) ==> r is None) && (r is None || r == a),
+        // the predicate returned SOME boolean for the element, and the result follows it
+        a is Some ==> exists|__b: bool| p.ensures((&a->Some_0,), __b) && r == (if __b { a } else { None::<T> });
 pub assume_specification<T, U: core::marker::Destruct, F: FnOnce(T) -> U + core::marker::Destruct> [Option::<T>::map_or] (a: Option<T>, d: U, f: F) -> (r: U)
     requires a matches Some(v) ==> f.requires((v,)),
     ensures a is None ==> r == d, a matches Some(v) ==> f.ensures((v,), r);
